@@ -161,6 +161,83 @@ def gen_roots(tier, seed):
     return cases
 
 
+def gen_diff(tier, seed):
+    """quadratic (and affine) maps R^ny -> R^nf with integer coefficients at rational points, including zero and large coordinates"""
+    r = random.Random(seed)
+    cases = []
+    reps = 1 if tier == "quick" else 8
+    shapes = [(1, 1), (1, 2), (1, 5), (2, 2), (3, 4), (4, 3), (2, 6)] + ([(10, 20), (7, 12), (1, 20), (10, 1)] if tier != "quick" else [(5, 8)])
+    for nf, ny in shapes:
+        for style in ("affine", "quadratic", "diagonal"):
+            for _ in range(6 * reps):
+                q = r.choice([1, 2, 4, 8])
+                big = r.random() < 0.25
+                xp = [r.choice([0, 0, r.randint(-9, 9), r.randint(-9, 9), r.randint(-2000, 2000) if big else r.randint(-30, 30)]) for _ in range(ny)]
+                A = [[[0] * ny for _ in range(ny)] for _ in range(nf)]
+                if style != "affine":
+                    for i in range(nf):
+                        for j in range(ny):
+                            for k in range(ny):
+                                if (style == "quadratic" and r.random() < 0.5) or (style == "diagonal" and j == k):
+                                    A[i][j][k] = r.randint(-3, 3)
+                B = [[r.randint(-5, 5) for _ in range(ny)] for _ in range(nf)]
+                C = [r.randint(-9, 9) for _ in range(nf)]
+                mag = max(abs(x) for x in xp + [1]) ** 2 * 3 * ny * ny + q * 5 * ny * max(abs(x) for x in xp + [1]) + q * q * 9
+                if mag >= LIM:
+                    continue
+                cases.append({"kind": "diff", "A": A, "B": B, "C": C, "xp": xp, "q": q, "style": style,
+                              "acc": r.choice([-1, -1, 1e-6, 1e-10, 1e-3]), "asdefault": r.randint(0, 1)})
+    return cases
+
+
+def check_diff(rep, c, w, o, worst):
+    nf, ny = len(c["B"]), len(c["xp"])
+    eps = 2.220446049250313e-16
+    acc = c["acc"] if c["acc"] > 0 else eps ** 0.875          # the documented default: NTraits<Real>::getSignificant()
+    x = [p / c["q"] for p in c["xp"]]
+    J = [[Fraction(e["n"], e["d"]) for e in row] for row in w["J"]]
+    f = [Fraction(e["n"], e["d"]) for e in w["f"]]
+    fscale = [sum(abs(c["A"][i][j][k] * x[j] * x[k]) for j in range(ny) for k in range(ny)) + sum(abs(c["B"][i][j] * x[j]) for j in range(ny)) + abs(c["C"][i]) + 1.0 for i in range(nf)]
+    tagb = "diff/%s/%s" % (c["style"], "nf%s-ny%s" % ("1" if nf == 1 else "n", "1" if ny == 1 else "n"))
+    for i in range(nf):
+        if abs(o["f"][i] - float(f[i])) > 1e-12 * fscale[i]:
+            rep.violation(tagb + "/harness-function-value", {"case": c}, "harness function differs from the spec's: %r vs %s" % (o["f"][i], f[i]))
+            return
+    for meth, order in (("forward", 1), ("central", 2)):
+        res = o[meth]
+        tag = tagb + "/" + meth
+        h = [(acc ** (1.0 / 2) if order == 1 else acc ** (1.0 / 3)) * max(abs(xj), 0.1) for xj in x]
+
+        def cmpJ(what, M):
+            for i in range(nf):
+                for j in range(ny):
+                    # one-sided: exactly h A_jj off (second derivative 2 A_jj, nothing beyond); central: exact
+                    trunc = h[j] * w["curv"][i][j] if order == 1 else 0.0
+                    want = float(J[i][j]) + trunc
+                    # rounding of the differences: about eps |f| / h each; the cleaned-up step differs from hEst by at most ~eps|x|/h relatively
+                    allow = 16 * eps * (fscale[i] + abs(w["curv"][i][j]) * (abs(x[j]) + h[j]) * h[j] * 4) / h[j] + abs(trunc) * 1e-5
+                    d = abs(M[i][j] - want) if M[i][j] == M[i][j] else float("inf")
+                    worst[tag] = max(worst.get(tag, 0.0), d / allow)
+                    if not d <= allow:
+                        rep.violation(tag + "/" + what, {"case": c},
+                                      "%s difference of output %d w.r.t. variable %d (x = %g, accuracy %g, step %.3g): %s returned %.17g, the true derivative is %s%s; difference %.3g, rounding allows %.3g (case %s)"
+                                      % (meth, i, j, x[j], acc, h[j], what, M[i][j], float(J[i][j]), (" and the one-sided formula adds h*A_jj = %.3g" % trunc) if order == 1 else "", d, allow, json.dumps(c)[:200]))
+                        return False
+            return True
+        if not cmpJ("calcJacobian", res["J"]) or not cmpJ("calcJacobian-convenience", res["J2"]):
+            continue
+        if nf == 1:
+            cmpJ("calcGradient", [res["g"]]); cmpJ("calcGradient-convenience", [res["g2"]])
+            if ny == 1:
+                cmpJ("calcDerivative", [[res["d"]]]); cmpJ("calcDerivative-convenience", [[res["d2"]]])
+        nc = w["calls"][meth]
+        if res["calls"] != nc or res["calls2"] != nc + 1 or res["stat"] != [2, 0, 2 * nc + 1] or (nf == 1 and res["gcalls"] != nc) or (nf == 1 and ny == 1 and res["dcalls"] != nc):
+            rep.violation(tag + "/user-function-calls", {"case": c}, "%s differences in %d variables: %d evaluations expected per differentiation (+1 for the convenience form); observed %s / %s, statistics %s"
+                          % (meth, ny, nc, res["calls"], res["calls2"], res["stat"]))
+        if res["order"] != order:
+            rep.violation(tag + "/method-order", {"case": c}, "getMethodOrder(%s) = %s" % (meth, res["order"]))
+
+
 def check_roots(rep, c, o, worst):
     n = len(c["factors"])
     exact = [complex(f["a"], f["b"]) / f["q"] for f in c["factors"]]
@@ -240,7 +317,7 @@ def main():
     binpath = vlib.compile_harness(os.path.join(VERIF, "harness", "replay_func.cpp"), os.path.join(VERIF, ".build", "bin", "replay_func"),
                                    extra=["-I" + os.path.join(VERIF, "harness")], libs=("SimTKmath", "SimTKcommon"))
     cov = {"states": 0, "transitions": 0, "traces_validated_against_impl": 0, "samples": []}
-    cases = [json.load(open(replay))["replay"]["case"]] if replay else (generate if pid == "C41" else gen_roots)(tier, vlib.seed())
+    cases = [json.load(open(replay))["replay"]["case"]] if replay else {"C41": generate, "C30": gen_roots, "C40": gen_diff}[pid](tier, vlib.seed())
     for c in cases:
         for k in ("re", "im"):
             c.pop(k, None)
@@ -300,6 +377,9 @@ def main():
             continue
         if c["kind"] == "roots":
             check_roots(rep, c, o, worst)
+            continue
+        if c["kind"] == "diff":
+            check_diff(rep, c, w, o, worst)
             continue
         if c["kind"] == "poly":
             v = [fr(x) for x in w["v"]]
@@ -390,6 +470,20 @@ def main():
         if len(rep.violations) > 30:
             rep.violations = rep.violations[:30]
         return rep.finish("model_checking", cov, assumptions=["roots are Gaussian integers over small denominators; a returned root may differ from the exact one by what its conditioning allows: (2e4 n eps sum|c_k||z|^k m!/|P^(m)(z)|)^(1/m)"])
+    if pid == "C40":
+        cov["largest_error_over_allowed_seen"] = cov.pop("largest_relative_difference_seen")
+        shapes = {}
+        for c in cases:
+            k = "%s/nf=%d,ny=%d" % (c["style"], len(c["B"]), len(c["xp"]))
+            shapes[k] = shapes.get(k, 0) + 1
+        cov["cases_by_style_and_shape"] = shapes
+        cov["samples"] = [{"case": {k: v for k, v in cases[0].items() if k != "A"}, "expected": want[0]["J"]}]
+        cov["uncovered"] = ["functions that are not polynomials of degree <= 2 (the bound implied by the method's order for general smooth functions)", "user functions that throw or return a non-zero status"]
+        cov["exhaustive"] = False
+        if len(rep.violations) > 30:
+            rep.violations = rep.violations[:30]
+        return rep.finish("model_checking", cov, assumptions=["integer coefficients, rational evaluation points (including 0 and magnitudes up to 2000), accuracies default / 1e-3 / 1e-6 / 1e-10",
+                                                              "a difference quotient may be off by the rounding of its two function values: 16 eps |f| / h, h = acc^(1/order) max(|x|, 0.1)"])
     cov["design_facts_checked_by_TLC"] = ["StepDesign: S(0)=0, S(1)=1, S' = 30 (x(x-1))^2, S'(0)=S'(1)=S''(0)=S''(1)=0, the factored forms the code uses for S'' and S'''"]
     cov["samples"] = [{"case": cases[0], "expected": want[0]}, {"case": cases[-1], "expected": want[-1]}]
     cov["uncovered"] = ["arguments and parameters off the rational sub-domain", "splines through data that is not polynomial of degree < (degree+1)/2 away from the knots; continuity across knots",
